@@ -169,6 +169,40 @@ class Run:
                 "t_model_s": round(self.t_model, 2), "t_impl_s": round(self.t_impl, 2)}
 
 
+HYP_IMPORTS = ("From hls Require Import Base Float Lex Kinds Types Tags Line Keys Media Master.\n"
+               "From hls.Proofs Require Import TagText TagTextMedia TagTextVariant MasterText ParsedWf TagTextSegment TagTextDateRange MediaText "
+               "C03Items ParsedBuilt MediaParsedWf.\nOpen Scope N_scope.\n")
+
+
+def hyp_counts(out):
+    """the `= [b; b; ...]` lists printed by coqc for Eval commands -> list of lists of strings"""
+    res = []
+    for m in re.finditer(r"=\s*\[(.*?)\]\s*:\s*list", out, re.S):
+        body = m.group(1).strip()
+        res.append([x.strip() for x in body.split(";")] if body else [])
+    return res
+
+
+def hypothesis_playlists(run, kind, n):
+    """evaluate the decidable hypotheses of the text-level round-trip theorem on generated valid playlists (in Coq, on the
+    model's own parse): how many satisfy them -- the theorem's domain is not vacuous on the generator's domain"""
+    g = gen.G(run.seed * 1000003 + 77)
+    terms = []
+    for _ in range(n):
+        gen.random_style(g)
+        text = gen.render_media(gen.gen_media(g), g) if kind == "media" else gen.render_master(gen.gen_master(g), g)
+        terms.append(vlib.coq_str_of(text))
+    if kind == "media":
+        f = "(fun t => match parse_media t with Ok p => (1 + (if wf_media p then 2 else 0) + (if media_domain p then 4 else 0)) | _ => 0 end)"
+    else:
+        f = "(fun t => match parse_master t with Ok p => (1 + (if wf_master p then 2 else 0) + (if floats_master p then 4 else 0)) | _ => 0 end)"
+    body = "Eval vm_compute in (map %s [\n%s])." % (f, ";\n".join(terms))
+    out = vlib.coq_eval("hyp_%s_%d" % (kind, os.getpid()), HYP_IMPORTS, body)
+    vals = [int(x.replace("%N", "")) for x in hyp_counts(out)[0]]
+    return {"playlists": n, "accepted_by_model": sum(1 for v in vals if v & 1), "hypotheses_hold (wf)": sum(1 for v in vals if v & 2),
+            "value_conditions_hold (floats/durations/domain)": sum(1 for v in vals if v & 4)}
+
+
 # ------------------------------------------------------------------ helpers on results
 def res_kind(r):
     if r is None:
@@ -418,6 +452,10 @@ class C03(Prop):
             detail = "serialise->parse changed the value or the text: re=%s" % (unparse(re_)[:1200] if re_ else None)
         return {"agree": agree, "ok": ok, "known": known, "nontrivial": c["meta"]["nontrivial"], "detail": detail, "stats": st}
 
+    def post(self, run):
+        if run.tier == "thorough":
+            run.stats["hypothesis_coverage"] = hypothesis_playlists(run, "media", 300)
+
 
 @register
 class C04(Prop):
@@ -446,6 +484,10 @@ class C04(Prop):
         ok = re_ is not None and re_[1] == "ok" and unparse(re_[2]) == d1 and unparse(re_[3]) == t1
         return {"agree": agree, "ok": ok, "nontrivial": c["meta"]["ntags"] > 0,
                 "detail": "" if ok else "serialise->parse changed the value or the text: re=%s" % (unparse(re_)[:1200] if re_ else None)}
+
+    def post(self, run):
+        if run.tier == "thorough":
+            run.stats["hypothesis_coverage"] = hypothesis_playlists(run, "master", 300)
 
 
 # ------------------------------------------------------------------ C06 / C07
@@ -1775,6 +1817,30 @@ class C18(Prop):
             add("UFloat", t, accept=True)
             add("Float", "-" + t, accept=True)
         return out
+
+    def post(self, run):
+        """thorough: the decidable hypotheses under which the tag theorems hold, evaluated in Coq on a sweep of values:
+        dur_rt for durations below 10^6 s with ns precision, float_rt for signed decimals, ufloat_rt for decimals with at most
+        three fractional digits.  Failures are reported (they would make the theorems inapplicable to those values)."""
+        if run.tier != "thorough":
+            return
+        g = gen.G(run.seed * 1000003 + 1818)
+        durs = [0, 1, 999999999, 10 ** 9, 10 ** 15 - 1] + [g.r.randrange(0, 10 ** 15) for _ in range(1500)] \
+            + [gen.dur_ns(g.duration_text(10 ** 6)) for _ in range(1500)]
+        floats = [g.f32_text() for _ in range(300)] + ["%s%d.%0*d" % (g.pick(["", "-"]), g.r.randrange(0, 10 ** 5), nd, g.r.randrange(0, 10 ** nd))
+                                                         for nd in (1, 2, 3) for _ in range(300)]
+        ufloats = ["%d.%0*d" % (g.r.randrange(0, 1000), nd, g.r.randrange(0, 10 ** nd)) for nd in (1, 2, 3) for _ in range(500)] + ["0", "25", "60", "120"]
+        body = ("Eval vm_compute in (filter (fun n => negb (dur_rt n)) [%s]).\n" % "; ".join(str(d) for d in durs)
+                + "Eval vm_compute in (map (fun s => match parse_float s with Ok x => float_rt x | _ => false end) [%s]).\n" % "; ".join(vlib.coq_str_of(t) for t in floats)
+                + "Eval vm_compute in (map (fun s => match parse_ufloat s with Ok x => ufloat_rt x | _ => false end) [%s])." % "; ".join(vlib.coq_str_of(t) for t in ufloats))
+        out = vlib.coq_eval("hyp_c18_%d" % os.getpid(), HYP_IMPORTS, body)
+        lists = hyp_counts(out)
+        bad_d = [x for x in lists[0] if x]
+        bad_f = [t for t, v in zip(floats, lists[1]) if v != "true"]
+        bad_u = [t for t, v in zip(ufloats, lists[2]) if v != "true"]
+        run.stats["hypothesis_coverage"] = {"dur_rt": {"sampled": len(durs), "failed": bad_d[:20]},
+                                            "float_rt": {"sampled": len(floats), "failed": bad_f[:20]},
+                                            "ufloat_rt": {"sampled": len(ufloats), "failed": bad_u[:20]}}
 
     def judge(self, run, c, m, i):
         agree = (m == i) if m is not None else None
